@@ -21,6 +21,7 @@ func init() {
 type c11Case struct {
 	Op   string `json:"op"` // "read" | "write"
 	Addr uint32 `json:"addr"`
+	End  uint32 `json:"end,omitempty"` // "dump": last address of the block
 }
 
 func c11NewSystem() (*emulator.System, error) {
@@ -185,6 +186,9 @@ func replayC11(raw json.RawMessage) (string, error) {
 			if own := c11Array(clone, mc2)[mo2]; v != own {
 				return fmt.Sprintf("a System made by copying another and calling CreateEmulator reads $%06x = $%02x, its own %v[$%x] holds $%02x", a, v, mc2, mo2, own), fmt.Errorf("unexplained:copied-system-reads-elsewhere")
 			}
+			if c11Write(clone, a, v^0x5A) || c11Array(clone, mc2)[mo2] != v^0x5A {
+				return fmt.Sprintf("a System made by copying another and calling CreateEmulator: write $%06x did not change its own %v[$%x]", a, mc2, mo2), fmt.Errorf("unexplained:copied-system-writes-elsewhere")
+			}
 		}
 		return "the copied System's bus serves its own arrays", nil
 	}
@@ -196,17 +200,21 @@ func replayC11(raw json.RawMessage) (string, error) {
 		for i := range buf {
 			buf[i] = sentinel
 		}
-		st, en := c.Addr, c.Addr+40
+		st, en := c.Addr, c.End
+		if en < st || en-st > 60 {
+			en = st + 40
+		}
 		var n int
 		var pn interface{}
 		func() {
 			defer func() { pn = recover() }()
 			n = s.Bus.EaDump(st, en, buf)
 		}()
-		if pn != nil || n != 41 {
-			return fmt.Sprintf("EaDump($%06x,$%06x) returned %d (panic %v), want 41", st, en, n, pn), fmt.Errorf("unexplained:block-read")
+		want := int(en - st + 1)
+		if pn != nil || n != want {
+			return fmt.Sprintf("EaDump($%06x,$%06x) returned %d (panic %v), want %d", st, en, n, pn, want), fmt.Errorf("unexplained:block-read")
 		}
-		for i := 0; i < 41; i++ {
+		for i := 0; i < want; i++ {
 			v, p := c11Read(s, st+uint32(i))
 			want := byte(sentinel)
 			if !p {
@@ -278,13 +286,13 @@ func runC11(r *report.Run) {
 		if unatt[a] {
 			unattached++
 			if mc, mo := c11Mapper(a); mc != refmap.Unmapped && c11ConsoleWindow(a, sramBanks) {
-				r.Violation(fmt.Sprintf("unexplained:memory-window-not-backed:%v", mc), fmt.Sprintf("$%06x lies in the console's %v window (mapper: %v[$%x]) but nothing is attached there", a, mc, mc, mo), c11Case{"read", a})
+				r.Violation(fmt.Sprintf("unexplained:memory-window-not-backed:%v", mc), fmt.Sprintf("$%06x lies in the console's %v window (mapper: %v[$%x]) but nothing is attached there", a, mc, mc, mo), c11Case{Op: "read", Addr: a})
 			}
 			continue
 		}
 		cls, off := refmap.Class(ids[a]>>28), ids[a]&0x0FFFFFFF
 		if cls > refmap.WRAM {
-			r.Violation("unexplained:read-garbage", fmt.Sprintf("read of $%06x returns bytes that identify no array cell (id $%08x)", a, ids[a]), c11Case{"read", a})
+			r.Violation("unexplained:read-garbage", fmt.Sprintf("read of $%06x returns bytes that identify no array cell (id $%08x)", a, ids[a]), c11Case{Op: "read", Addr: a})
 			continue
 		}
 		if cls != refmap.Unmapped {
@@ -295,7 +303,7 @@ func runC11(r *report.Run) {
 			// inside a documented memory window of the console, translated by the mapper, yet not
 			// backed by the array the mapper designates (I/O or nothing answers there)
 			disagreements++
-			r.Violation(fmt.Sprintf("unexplained:memory-window-not-backed:%v", mc), fmt.Sprintf("read $%06x lies in the console's %v window (mapper: %v[$%x]) but is not backed by that array", a, mc, mc, mo), c11Case{"read", a})
+			r.Violation(fmt.Sprintf("unexplained:memory-window-not-backed:%v", mc), fmt.Sprintf("read $%06x lies in the console's %v window (mapper: %v[$%x]) but is not backed by that array", a, mc, mc, mo), c11Case{Op: "read", Addr: a})
 			continue
 		}
 		if cls == refmap.Unmapped || mc == refmap.Unmapped {
@@ -305,7 +313,7 @@ func runC11(r *report.Run) {
 		perClass[mc.String()]++
 		if cls != mc || off != mo {
 			disagreements++
-			r.Violation(fmt.Sprintf("unexplained:read-backing:%v-as-%v", mc, cls), fmt.Sprintf("read $%06x returns %v[$%x], mapper designates %v[$%x]", a, cls, off, mc, mo), c11Case{"read", a})
+			r.Violation(fmt.Sprintf("unexplained:read-backing:%v-as-%v", mc, cls), fmt.Sprintf("read $%06x returns %v[$%x], mapper designates %v[$%x]", a, cls, off, mc, mo), c11Case{Op: "read", Addr: a})
 			continue
 		}
 		t := tgt{mc, mo}
@@ -366,7 +374,7 @@ func runC11(r *report.Run) {
 					}
 				}
 				if bad != "" {
-					r.Violation("unexplained:block-read", fmt.Sprintf("Bus.EaDump($%06x,$%06x) across the seam at $%06x: %s", st, en, b, bad), c11Case{"dump", st})
+					r.Violation("unexplained:block-read", fmt.Sprintf("Bus.EaDump($%06x,$%06x) across the seam at $%06x: %s", st, en, b, bad), c11Case{Op: "dump", Addr: st, End: en})
 				}
 			}
 		}
@@ -409,11 +417,11 @@ func runC11(r *report.Run) {
 					arr, oarr := c11Array(clone, cls), c11Array(orig, cls)
 					v, p := c11Read(clone, a)
 					if p || v != arr[off] {
-						r.Violation("unexplained:copied-system-reads-elsewhere", fmt.Sprintf("a System made by copying another and calling CreateEmulator: read $%06x = $%02x (panic %v), its own %v[$%x] holds $%02x, the original's $%02x", a, v, p, cls, off, arr[off], oarr[off]), c11Case{"clone", a})
+						r.Violation("unexplained:copied-system-reads-elsewhere", fmt.Sprintf("a System made by copying another and calling CreateEmulator: read $%06x = $%02x (panic %v), its own %v[$%x] holds $%02x, the original's $%02x", a, v, p, cls, off, arr[off], oarr[off]), c11Case{Op: "clone", Addr: a})
 						break
 					}
 					if c11Write(clone, a, v^0x5A) || arr[off] != v^0x5A {
-						r.Violation("unexplained:copied-system-writes-elsewhere", fmt.Sprintf("a System made by copying another and calling CreateEmulator: write $%06x did not change its own %v[$%x]", a, cls, off), c11Case{"clone", a})
+						r.Violation("unexplained:copied-system-writes-elsewhere", fmt.Sprintf("a System made by copying another and calling CreateEmulator: write $%06x did not change its own %v[$%x]", a, cls, off), c11Case{Op: "clone", Addr: a})
 						break
 					}
 					arr[off] = v
@@ -421,7 +429,7 @@ func runC11(r *report.Run) {
 			}
 			for i, arr := range [3][]byte{orig.ROM[:], orig.SRAM[:], orig.WRAM[:]} {
 				if !bytes.Equal(arr, snap[i]) {
-					r.Violation("unexplained:copied-system-writes-elsewhere", fmt.Sprintf("writes through the copied System's bus changed the ORIGINAL System's %v array at offset $%x", refmap.Class(i+1), firstDiff(arr, snap[i])), c11Case{"clone", 0})
+					r.Violation("unexplained:copied-system-writes-elsewhere", fmt.Sprintf("writes through the copied System's bus changed the ORIGINAL System's %v array at offset $%x", refmap.Class(i+1), firstDiff(arr, snap[i])), c11Case{Op: "clone", Addr: 0})
 				}
 			}
 		}
@@ -465,7 +473,7 @@ func runC11(r *report.Run) {
 				}
 				mc, mo := c11Mapper(a)
 				if c11Write(s, a, v) {
-					r.Violation("unexplained:write-panics", fmt.Sprintf("write to $%06x (readable, %v[$%x]) panicked", a, mc, mo), c11Case{"write", a})
+					r.Violation("unexplained:write-panics", fmt.Sprintf("write to $%06x (readable, %v[$%x]) panicked", a, mc, mo), c11Case{Op: "write", Addr: a})
 					continue
 				}
 				model[int(mc)-1][mo] = v
@@ -482,7 +490,7 @@ func runC11(r *report.Run) {
 							culprit = a
 						}
 					}
-					r.Violation(fmt.Sprintf("unexplained:write-target:%v", refmap.Class(i+1)), fmt.Sprintf("mirror layer %d run %d: array %v offset $%x holds $%02x, predicted $%02x (culprit candidate $%06x)", j, run, refmap.Class(i+1), d, arr[d], model[i][d], culprit), c11Case{"write", culprit})
+					r.Violation(fmt.Sprintf("unexplained:write-target:%v", refmap.Class(i+1)), fmt.Sprintf("mirror layer %d run %d: array %v offset $%x holds $%02x, predicted $%02x (culprit candidate $%06x)", j, run, refmap.Class(i+1), d, arr[d], model[i][d], culprit), c11Case{Op: "write", Addr: culprit})
 					copy(model[i], arr) // resynchronise so that one defect is reported once per layer
 				}
 			}
@@ -498,8 +506,8 @@ func runC11(r *report.Run) {
 	r.Set("writes_executed", writes)
 	r.Set("rule", "a System obtained by struct copy + CreateEmulator must serve its own arrays (both edges of every seam read and written, the original untouched); block reads: Bus.EaDump from 20, 8 and 1 bytes before every seam of the map (attached/unattached or another array) to 20 bytes after it, and over blocks inside one 16-byte cell on either side of the seam, must equal the single reads and leave holes untouched; reads: all 2^24 bus addresses x 4 passes (byte k of a unique location id planted in every ROM/SRAM/WRAM array cell) identify exactly which cell backs each address; writes: addresses grouped into mirror layers (j-th alias of each cell), each layer written ascending/descending with two complementary value patterns and all three arrays compared in full with the prediction after each run; non-trivial = address that both the emulator backs with an array cell and the LoROM mapper translates")
 	r.Set("exhaustive", true)
-	r.Sample(c11Case{"read", 0x808000})
-	r.Sample(c11Case{"write", 0x001FFF})
-	r.Sample(c11Case{"write", 0xF07FFF})
+	r.Sample(c11Case{Op: "read", Addr: 0x808000})
+	r.Sample(c11Case{Op: "write", Addr: 0x001FFF})
+	r.Sample(c11Case{Op: "write", Addr: 0xF07FFF})
 	r.Assume("array contents are arbitrary but the bus never inspects data, so identification with planted ids generalises over contents")
 }
